@@ -110,8 +110,10 @@ pub fn run() -> i32 {
     par_fold(specs.len(), 16, Acc::default, |i, a| for p in phrases { check(&specs[i], p, a) }, |a| t.merge(a));
     // rules that edit a syllable at its front / in the middle, followed by rules that compare whole syllables or segments with variables:
     // the run hands the edited word itself on to the next group, the trace a copy of it — both must see the same word
-    let pool2 = ["* > t / a$_a", "* > t / $_a", "* > i / $_C", "%=1 > * / _1", "%=1 > * / 1_", "C=1 > * / _V 1", "a > o / _#", "%=1 1 > 1", "* > 1 / $_C=1", "$C > & / V_"];
-    let phrases2 = ["ta.a", "ka ta.a.ki", "sa.a.ta ta.a", "a.a.a", "ta.ta.a pa.a"];
+    let pool2 = ["[-son, αvoice]=1 V=2 > 1 2:[αlong]", "[αvoice] [-αvoice] > [+nasal] [+nasal]", "* > t / a$_a", "* > t / $_a", "* > i / $_C", "%=1 > * / _1", "%=1 > * / 1_", "C=1 > * / _V 1", "a > o / _#", "%=1 1 > 1", "* > 1 / $_C=1", "$C > & / V_"];
+    let phrases2 = ["ta.a", "ka ta.a.ki", "sa.a.ta ta.a", "a.a.a", "ta.ta.a pa.a",
+        // a word that ends in the middle of a match of a two-element input, followed by a word that begins with another match
+        "pat ba", "pat ba tad da", "bad pa"];
     let mut specs2: Vec<Vec<Vec<&str>>> = vec![];
     for a in pool2 { for b in pool2 { specs2.push(vec![vec![a], vec![b]]); for c in pool2 { specs2.push(vec![vec![a], vec![b], vec![c]]); } } }
     let mut t2 = Acc::default();
